@@ -87,35 +87,37 @@ class World:
         raise KeyError(key)
 
     # ---- ghost model updates (Appendix D) ----------------------------------------------
+    # the model is keyed by object identity (id()), never by the objects' own ==/hash: "the node" of the
+    # property statement is that object, whatever equality its class may define
     def m_node(self, n):
-        if n not in self.V:
+        if not any(x is n for x in self.V):
             self.V.append(n)
-            self.succ[n], self.pred[n] = [], []
+            self.succ[id(n)], self.pred[id(n)] = [], []
 
     def m_link(self, u, l, v):
         self.m_node(u)
         self.m_node(v)
-        if v not in self.succ[u]:
-            self.succ[u].append(v)
-            self.pred[v].append(u)
-        self.lnk[(u, v)] = l
+        if not any(x is v for x in self.succ[id(u)]):
+            self.succ[id(u)].append(v)
+            self.pred[id(v)].append(u)
+        self.lnk[(id(u), id(v))] = (u, v, l)
 
     def m_origin(self, o, n):
         self.m_node(n)
-        self.o[n] = o
+        self.o[id(n)] = o
 
     def m_dest(self, d, n):
         self.m_node(n)
-        self.d[n] = d
+        self.d[id(n)] = d
 
     def resync(self):
         G = self.net.graph
         self.V = list(G.nodes)
-        self.succ = {n: list(G.succ[n]) for n in G.nodes}
-        self.pred = {n: list(G.pred[n]) for n in G.nodes}
-        self.lnk = {(u, v): G.edges[u, v].get("link") for u, v in G.edges}
-        self.o = {n: d["origin"] for n, d in G.nodes.data() if "origin" in d}
-        self.d = {n: d["destination"] for n, d in G.nodes.data() if "destination" in d}
+        self.succ = {id(n): list(G.succ[n]) for n in G.nodes}
+        self.pred = {id(n): list(G.pred[n]) for n in G.nodes}
+        self.lnk = {(id(u), id(v)): (u, v, G.edges[u, v].get("link")) for u, v in G.edges}
+        self.o = {id(n): d["origin"] for n, d in G.nodes.data() if "origin" in d}
+        self.d = {id(n): d["destination"] for n, d in G.nodes.data() if "destination" in d}
 
     @staticmethod
     def path_well_formed(items):
@@ -192,20 +194,20 @@ class World:
     def graph_vs_model(self):
         G = self.net.graph
         v = []
-        if list(G.nodes) != self.V and set(G.nodes) != set(self.V):
+        if sorted(id(n) for n in G.nodes) != sorted(id(n) for n in self.V):
             v.append(("graph nodes", sorted(str(n) for n in G.nodes), sorted(str(n) for n in self.V)))
-        edges = {(u, w): G.edges[u, w] for u, w in G.edges}
+        edges = {(id(u), id(w)): (u, w, d) for u, w, d in G.edges(data=True)}
         if set(edges) != set(self.lnk):
-            v.append(("graph edges", sorted(f"{u}->{w}" for u, w in edges), sorted(f"{u}->{w}" for u, w in self.lnk)))
-        for e, data in edges.items():
-            if e in self.lnk and (set(data) != {"link"} or data["link"] is not self.lnk[e]):
-                v.append((f"link carried by edge {e[0]}->{e[1]}", str(data), repr(self.lnk[e])))
+            v.append(("graph edges", sorted(f"{u}->{w}" for u, w, _ in edges.values()), sorted(f"{u}->{w}" for u, w, _ in self.lnk.values())))
+        for e, (u, w, data) in edges.items():
+            if e in self.lnk and (set(data) != {"link"} or data["link"] is not self.lnk[e][2]):
+                v.append((f"link carried by edge {u}->{w}", str(data), repr(self.lnk[e][2])))
         for n, data in G.nodes.data():
             exp = {}
-            if n in self.o:
-                exp["origin"] = self.o[n]
-            if n in self.d:
-                exp["destination"] = self.d[n]
+            if id(n) in self.o:
+                exp["origin"] = self.o[id(n)]
+            if id(n) in self.d:
+                exp["destination"] = self.d[id(n)]
             if set(data) != set(exp) or any(data[k] is not exp[k] for k in exp):
                 v.append((f"attachments of node {n}", str(dict(data)), str(exp)))
         return v
